@@ -1,6 +1,6 @@
 (* C10 — pending queue integrity and uniqueness of validator identities. *)
 From stdpp Require Import gmap.
-Require Import Model.Base Model.State Model.Staking Model.Slashing Model.Poa proofs.L1More.
+Require Import Model.Base Model.State Model.Staking Model.Slashing Model.Poa Model.App proofs.L1More proofs.Inv proofs.InvPres proofs.InvMsgs proofs.InvHistory proofs.InvPending.
 
 (* a successful CreateValidator appends exactly the submitted application (operator, consensus key, rates,
    description); nothing in x/staking or x/slashing moves; it is neither a validator nor pending already *)
@@ -25,3 +25,38 @@ Proof. exact create_validator_unique. Qed.
 Theorem C10_unique_after_remove_pending : forall c val c',
   pending_unique c -> msg_remove_pending c admin_id val = MOk c' -> pending_unique c'.
 Proof. exact remove_pending_unique. Qed.
+
+(* the list as a function of the history: after any sequence of blocks the list the query returns is the replay, in order, of
+   the messages of the transactions that passed — a CreateValidator appends exactly the application it carried, a SetPower
+   or a RemovePending deletes the first entry of the operator it names (nothing, if there is none) — starting from the
+   empty list; no other message, no failed or refused transaction, no BeginBlock (downtime, double-sign evidence) and no
+   EndBlock ever adds, drops, reorders or edits an entry *)
+Theorem C10_pending_list_is_the_replay_of_the_history : forall g bs,
+  wf_genesis g ->
+  pending (poa (w_chain (run_world (init_world g) bs))) = fold_left spec_step (history_contribution (init_world g) bs) [].
+Proof. exact pending_list_is_the_replay. Qed.
+
+(* what one message contributes to that replay *)
+Theorem C10_replay_step_meaning : forall l m,
+  spec_step l m =
+  match m with
+  | MCreateValidator v k mon (Some r) (Some mx) (Some ch) _ =>
+      l ++ [{| p_oper := v; p_cons := k; p_rate := r; p_maxrate := mx; p_maxchg := ch; p_moniker := mon |}]
+  | MSetPower _ v _ _ | MRemovePending _ v => remove_first_pending v l
+  | _ => l
+  end.
+Proof. intros l m. destruct m as [? ? ? ?|? ?|? ?|? ? ? [?|] [?|] [?|] ?|? ?|?|?|? ?]; reflexivity. Qed.
+
+(* in every reachable state: no two applications share an operator or a consensus key, no application's operator has a
+   validator record, no application's key is any validator's key, and no two validator records share a key *)
+Theorem C10_identities_unique_in_every_reachable_state : forall g bs,
+  wf_genesis g ->
+  let c := w_chain (run_world (init_world g) bs) in
+  List.NoDup (map p_oper (pending (poa c))) /\ List.NoDup (map p_cons (pending (poa c))) /\
+  (forall p, In p (pending (poa c)) -> vals (stk c) !! p_oper p = None) /\
+  (forall p id v, In p (pending (poa c)) -> vals (stk c) !! id = Some v -> v_cons v <> p_cons p) /\
+  (forall i j vi vj, vals (stk c) !! i = Some vi -> vals (stk c) !! j = Some vj -> v_cons vi = v_cons vj -> i = j).
+Proof.
+  intros g bs Hg c. destruct (reachable_CI g bs Hg) as [HS [A B C D]]. fold c in HS, A, B, C, D.
+  split; [exact A|]. split; [exact B|]. split; [exact C|]. split; [exact D|]. exact (si_cons _ HS).
+Qed.
